@@ -820,7 +820,8 @@ S5_MORE = [(2, 0, 4, 1, 3), (3, 0, 2, 4, 1), (1, 4, 2, 0, 3), (3, 1, 4, 2, 0),  
            (0, 1, 2, 3, 4), (4, 3, 2, 1, 0), (0, 2, 1, 4, 3), (2, 1, 0, 4, 3), (0, 4, 1, 3, 2),
            (1, 0, 2, 4, 3)]
 S6_NONPIN = [(1, 2, 5, 0, 3, 4), (2, 1, 0, 5, 4, 3)]
-S6_PIN = [(2, 4, 0, 5, 1, 3)]
+S6_PIN = [(1, 3, 0, 5, 2, 4)]          # has 24 pin words; (2,4,0,5,1,3) has none
+S6_NONPIN_MORE = [(2, 4, 0, 5, 1, 3)]
 
 
 def pool(quick):
@@ -884,11 +885,19 @@ def pool(quick):
         longs.append(p)
     push([S5_QUICK[0], (0, 1, 2)])
     push([S5_QUICK[0], S5_QUICK[1]])
+    # bases whose FIRST element in sorted order has no pin word at all (only possible from length
+    # 6 on): its automaton is the empty language, so a union loop that mistakes a one-state
+    # automaton for the universal one goes wrong exactly here
+    for p in S6_NONPIN[:1] + S6_PIN:
+        longs.append(p)
+    push([S6_NONPIN[0], S6_PIN[0]])
     if not quick:
         for p in S6_NONPIN + S6_PIN:
             push([p])
-            longs.append(p)
+            if p not in longs:
+                longs.append(p)
         push([S6_NONPIN[0], (0, 1, 2, 3)])
+        push([S6_NONPIN[1], S6_NONPIN[0], S6_PIN[0]])
     return out, longs
 
 
